@@ -199,6 +199,12 @@ class Table(Vector):
 		
 		self._length = len(initial[0]) if initial else 0
 		
+		# A table is rectangular: refuse columns of unequal length
+		if initial and any(len(vec) != self._length for vec in initial):
+			raise SerifValueError(
+				f"All columns of a Table must have the same length, got {[len(vec) for vec in initial]}"
+			)
+		
 		# Deep copy columns to enforce value semantics
 		# Tables receive snapshots of vectors, preventing aliasing
 		# Save original names BEFORE copying
